@@ -78,14 +78,16 @@ Definition same_block_segment (p : Z) (seg : list opinfo) : bool :=
   forallb (fun y => oi_parent y =? p) seg.
 
 (* ---- finding classes (classifier of a racing pair found by L2; decidable on the input) ------- *)
-Fixpoint between (a b : Z) (l : list opinfo) : list opinfo :=   (* ops strictly between the first a and the next b *)
+(* ops strictly between the first a and the next b after it (nothing when b does not follow a) *)
+Fixpoint upto (b : Z) (r : list opinfo) : option (list opinfo) :=
+  match r with
+  | [] => None
+  | z :: r' => if oi_id z =? b then Some [] else option_map (cons z) (upto b r')
+  end.
+Fixpoint between (a b : Z) (l : list opinfo) : list opinfo :=
   match l with
   | [] => []
-  | y :: r => if oi_id y =? a then (fix upto (r : list opinfo) : list opinfo :=
-                                      match r with
-                                      | [] => []
-                                      | z :: r' => if oi_id z =? b then [] else z :: upto r'
-                                      end) r
+  | y :: r => if oi_id y =? a then match upto b r with Some seg => seg | None => [] end
               else between a b r
   end.
 
@@ -102,7 +104,9 @@ Definition classify_pair (flat : list opinfo) (a b : Z) : Z :=
       if negb (shares x u || shares u x) then 1
       else if negb (oi_parent x =? oi_parent u) then 2
       else if negb (same_block_segment (oi_parent x) (between a b flat) &&
-                    same_block_segment (oi_parent x) (between b a flat)) then 3
+                    same_block_segment (oi_parent x) (between b a flat) &&
+                    (* in a loop body the path may go around the back-edge: the whole body must be straight-line *)
+                    (if oi_pfor x then same_block_segment (oi_parent x) (between (oi_parent x) (oi_pyield x) flat) else true)) then 3
       else 0
   | _, _ => 1
   end.
@@ -144,6 +148,14 @@ Fixpoint split_phases (cur : list mop) (l : list instr) : list (list mop) :=
 (* ops executed by all cores only conflict with nothing (they touch no shared buffer); a pair
    races when it is on two different specific cores and conflicts *)
 Definition specific (o : mop) : bool := 0 <=? o_core o.
+Fixpoint phase_races (p : list mop) : list (mop * mop) :=
+  match p with
+  | [] => []
+  | a :: r => map (fun b => (a, b)) (filter (fun b => negb (o_core a =? o_core b) && conflictb a b) r) ++ phase_races r
+  end.
+Definition all_races (l : list instr) : list (mop * mop) :=
+  flat_map (fun p => phase_races (filter specific p)) (split_phases [] l).
+
 Definition first_race (l : list instr) : option (mop * mop) :=
   (fix go (phs : list (list mop)) : option (mop * mop) :=
      match phs with
